@@ -335,6 +335,15 @@ class LinkNative(Contract):
                 for a_, b_ in ((i_, j_) for i_ in range(len(new_ids)) for j_ in range(i_)):
                     if (new_ids[a_] == new_ids[b_]) != (src_kept[a_] == src_kept[b_]):
                         return f"{what}: receivers {b_} and {a_} {'share' if src_kept[a_] == src_kept[b_] else 'do not share'} a loop in the original but not so in the copy (ids {new_ids.tolist()})"
+                # the loop a copied receiver refers to is named the same on both copies (one loop, one label), and every loop in use has a name
+                maps = []
+                for ent in (new_rx, new_tx):
+                    vm = getattr(ent.tx_id_property, "value_map", None)
+                    maps.append({int(k): str(v) for k, v in (getattr(vm, "map", None) or {}).items()})
+                used = {int(k) for k in np.unique(np.r_[new_ids, np.asarray(new_tx.tx_id_property.values)]) if int(k) != 0}
+                for k in sorted(used):
+                    if maps[0].get(k) is None or maps[0].get(k) != maps[1].get(k):
+                        return f"{what}: loop {k} is called {maps[0].get(k)!r} on the copied receivers and {maps[1].get(k)!r} on the copied transmitters"
                 return None
 
             bad = None
@@ -892,3 +901,56 @@ class IndependentSurveysFrame(Contract):
 
 
 CONTRACTS = CONTRACTS + [IndependentSurveysFrame]
+
+
+class ElectrodeMetadataRefusal(Contract):
+    """BaseElectrode.metadata (setter): a record that does not name both electrodes, or names one the
+    workspace does not hold, is refused -- and a refusal leaves the record the electrode holds (which
+    its partner holds too: one dictionary for the pair) exactly as it was."""
+    target = "geoh5py/objects/surveys/direct_current.py::BaseElectrode.metadata.fset"
+    props = ("C20",)
+    lenient = True
+
+    def cases(self):
+        return [(linked, bad) for linked in (True, False) for bad in ("unknown-current", "unknown-potential", "keys-missing")]
+
+    def setup(self, ctx):
+        import uuid
+
+        from geoh5py.objects import PotentialElectrode
+
+        linked, bad = ctx.case
+        me = Opaque("self", cls=PotentialElectrode)
+        cur, pot, ghost = uuid.UUID(int=1), uuid.UUID(int=2), uuid.UUID(int=99)
+        held = PDict({"Current Electrodes": cur, "Potential Electrodes": pot}) if linked else None
+        me.attrs["metadata"] = held
+        me.attrs["_metadata"] = held
+        ws = Opaque("workspace")
+        known = Opaque("an-electrode")
+        ctx.path.assume(~known.none_var())
+        ge = Opaque("get_entity")
+        ge.maybe_method = lambda I, a, kw: PList([None if a[0] == ghost else known])
+        ws.attrs["get_entity"] = ge
+        ua = Opaque("update_attribute")
+        ua.maybe_method = lambda I, a, kw: I.event("persist")
+        ws.attrs["update_attribute"] = ua
+        me.attrs["workspace"] = ws
+        values = {"unknown-current": {"Current Electrodes": ghost, "Potential Electrodes": pot}, "unknown-potential": {"Current Electrodes": cur, "Potential Electrodes": ghost},
+                  "keys-missing": {"Some other key": 5}}[bad]
+        if linked and bad == "keys-missing":
+            values = {"Current Electrodes": ghost}  # with a record already there the missing key is taken from it: still an unknown electrode
+        ctx.env.update(me=me, held=held, before=None if held is None else dict(held.items))
+        return [me, PDict(dict(values))], {}
+
+    def post(self, ctx, result):
+        ctx.oblige("a-record-naming-an-unknown-electrode-or-lacking-one-is-refused", False, note="accepted")
+
+    def post_raises(self, ctx, sig):
+        e = ctx.env
+        ctx.oblige("refused-with-the-documented-errors", sig.exc_class in (KeyError, ValueError), kind="post-exc")
+        same = (e["held"] is None and e["me"].attrs.get("_metadata") is None) or (e["held"] is not None and e["me"].attrs.get("_metadata") is e["held"] and dict(e["held"].items) == e["before"])
+        ctx.oblige("a-refused-record-leaves-the-held-record-as-it-was", same and not ctx.path.events, kind="post-exc",
+                   note=f"the record held by the electrode (and by its partner) now reads {None if e['held'] is None else dict(e['held'].items)}")
+
+
+CONTRACTS = CONTRACTS + [ElectrodeMetadataRefusal]
